@@ -237,6 +237,54 @@ fn run_ttc(ctx: &Ctx) {
     ctx.add_explore(&s);
 }
 
+/// WOFF files whose tables collide on everything a directory entry says about the original data except the tag: the same
+/// 32 bit words in another order (equal origLength and origChecksum, different bytes), equal length with another checksum,
+/// and identical bytes. Every assignment of these contents to three tags x every compression choice x every order in which
+/// the tables are asked for (and asked for again in reverse): each answer must be the table stored under that tag.
+fn run_woff_twins(ctx: &Ctx) {
+    let base: Vec<u8> = (0..240usize).map(|j| ((j / 48) * 29 + 7) as u8).collect(); // five runs of 48 equal bytes: compressible
+    let mut permuted = base.clone();
+    permuted.rotate_left(48); // same words, another order: same length, same checksum
+    let mut other = base.clone();
+    other[100] ^= 0x40; // same length, different checksum
+    debug_assert_eq!(sfnt::checksum(&base), sfnt::checksum(&permuted));
+    let contents: [Vec<u8>; 4] = [base.clone(), permuted, other, base];
+    let orders: [[usize; 3]; 6] = [[0, 1, 2], [0, 2, 1], [1, 0, 2], [1, 2, 0], [2, 0, 1], [2, 1, 0]];
+    let tags3 = [TAGS[0], TAGS[1], TAGS[2]];
+    let s = explore_par(0, 3, |c: &mut Chooser<'_>| {
+        let pickc: Vec<usize> = (0..3).map(|_| c.pick(4)).collect();
+        let compress: Vec<bool> = (0..3).map(|_| c.flag()).collect();
+        let order = *c.of(&orders);
+        let tables: Vec<(u32, Vec<u8>)> = (0..3).map(|k| (tags3[k], contents[pickc[k]].clone())).collect();
+        let (bytes, done) = sfnt::build_woff(sfnt::TTF, &tables, &compress, None, None);
+        let what = || json!({"container": "woff-twins", "contents": pickc, "compressed": done, "query_order": order, "file_hex": mcx::hex(&bytes)});
+        let h = H::new().bytes(&bytes).u64(order[0] as u64 * 3 + order[1] as u64).get();
+        let r = guard(|| match ReadScope::new(&bytes).read::<WoffFont<'_>>() {
+            Ok(f) => {
+                let seq: Vec<usize> = order.iter().copied().chain(order.iter().rev().copied()).collect();
+                for k in seq {
+                    match f.table_data(tables[k].0) {
+                        Ok(Some(got)) if got.as_ref() == &tables[k].1[..] => {}
+                        o => {
+                            ctx.violation("C10:woff:table-bytes-differ:colliding-directory-entries", || json!({"config": what(), "tag": otmodel::tag_str(tables[k].0), "got": format!("{:?}", o.map(|x| x.map(|c| mcx::hex(&c))))}));
+                            break;
+                        }
+                    }
+                }
+            }
+            Err(e) => ctx.violation("C10:woff:wellformed-file-rejected", || json!({"config": what(), "error": format!("{:?}", e)})),
+        });
+        if let Err(p) = r {
+            ctx.violation(&format!("C10:woff:panic:{}", p.site_key("/repo")), || json!({"config": what(), "panic": p.msg}));
+        }
+        if done.iter().filter(|d| **d).count() >= 2 && pickc[0] != pickc[1] {
+            ctx.mark_nontrivial(h);
+        }
+        ctx.mark_outcome(h);
+    });
+    ctx.add_explore(&s);
+}
+
 fn run_woff(ctx: &Ctx) {
     let thorough = ctx.tier.thorough();
     let lens: &[usize] = if thorough { &[0, 1, 4, 5, 90, 203] } else { &[0, 3, 90, 203] };
@@ -327,6 +375,7 @@ pub fn run(ctx: &Ctx) {
     run_sfnt(ctx);
     run_ttc(ctx);
     run_woff(ctx);
+    run_woff_twins(ctx);
     ctx.set("bounds", json!({"tables_per_font": if ctx.tier.thorough() {4} else {3}, "ttc_members": if ctx.tier.thorough() {3} else {2}, "order_deviations": 2}));
 }
 
